@@ -119,6 +119,8 @@ class Recorder:
                 detail = type(event.primitive).__name__
             self.events.append((round(self.w.now - 1000.0, 6), key, name, detail))
             cb = self.on_event.pop(name, None)
+            if cb is None and detail is not None and isinstance(detail, str):
+                cb = self.on_event.pop(f"{name}:{detail}", None)  # e.g. "EVT_ACSE_SENT:A_RELEASE"
             if cb is not None:
                 cb(event)
             idx = self.count
